@@ -538,9 +538,8 @@ class RECFM_N(RECFM_Reader):
                 raise RuntimeError(
                     "no bytes consumed from buffer via the .used() method"
                 )
-            self.buffer = self.buffer[self._used :] + self.source.read(
-                32768 - self._used
-            )
+            remaining = self.buffer[self._used :]
+            self.buffer = remaining + self.source.read(32768 - len(remaining))
 
 
 class RECFM_F(RECFM_Reader):
